@@ -258,6 +258,13 @@ type deserGot struct {
 
 // deserRead runs the Deserializer chain of prog over src.
 func deserRead(prog []dop, src []byte, variant int, iters *int, cap int) (vals []any, off int, err error) {
+	// the input is the front part of a larger buffer (24 bytes of spare capacity with stale content): nothing behind len is input
+	buf := make([]byte, len(src)+24)
+	copy(buf, src)
+	for i := len(src); i < len(buf); i++ {
+		buf[i] = byte(0x41 + (i-len(src))%3)
+	}
+	src = buf[:len(src)]
 	d := serializer.NewDeserializer(src)
 	vals = []any{}
 	add := func(v any) {
